@@ -1,8 +1,6 @@
 package optimizer
 
 import (
-	"reflect"
-
 	. "github.com/antonmedv/expr/ast"
 )
 
@@ -15,11 +13,12 @@ func (*inArray) Exit(node *Node) {
 		if n.Operator == "in" || n.Operator == "not in" {
 			if array, ok := n.Right.(*ArrayNode); ok {
 				if len(array.Nodes) > 0 {
+					// This optimization can be only performed if left side is exactly of
+					// the map's key type (int or string, not a named type of that kind),
+					// as runtime.in func uses reflect.Map.MapIndex and keys of map must,
+					// be same as checked value type.
 					t := n.Left.Type()
-					if t == nil || t.Kind() != reflect.Int {
-						// This optimization can be only performed if left side is int type,
-						// as runtime.in func uses reflect.Map.MapIndex and keys of map must,
-						// be same as checked value type.
+					if t != integerType {
 						goto string
 					}
 
@@ -41,6 +40,9 @@ func (*inArray) Exit(node *Node) {
 					}
 
 				string:
+					if t != stringType {
+						return
+					}
 					for _, a := range array.Nodes {
 						if _, ok := a.(*StringNode); !ok {
 							return
